@@ -68,17 +68,89 @@ class Sym:
         while name in Sym.ALIAS and seen < 8:
             to = Sym.ALIAS[name]
             seen += 1
+            if isinstance(to, str) and to.startswith('lin:'):
+                return ('lin',) + Sym.parse_lin(to)
             try:
                 return Fraction(to)
             except (ValueError, ZeroDivisionError):
                 name = to
         return name
 
+    @staticmethod
+    def parse_lin(to):
+        """'lin:c*name;c*name|const' -> ([(Fraction, name), ...], Fraction)"""
+        body, const = to[4:].split('|')
+        return [(Fraction(t.split('*', 1)[0]), t.split('*', 1)[1]) for t in body.split(';') if t], Fraction(const)
+
+    @staticmethod
+    def format_lin(terms, const):
+        return 'lin:' + ';'.join('%s*%s' % (c, n) for n, c in sorted(terms.items()) if c != 0) + '|' + str(Fraction(const))
+
+    @staticmethod
+    def lin_value(res, V):
+        """value of an input pinned to a linear combination of other inputs (res = Sym.resolve(name) = ('lin', terms, const))"""
+        out = Sym(Fraction(res[2]))
+        for c, n in res[1]:
+            out = out + V(n) * c
+        return out
+
+    def _linear(self, raw=False):
+        """numerator as a linear form over input symbols ({name: Fraction}, Fraction) or None"""
+        if self.d or _is_num(self.n):
+            return None
+
+        def rec(t):
+            if z3.is_rational_value(t):
+                return {}, Fraction(t.numerator_as_long(), t.denominator_as_long())
+            if z3.is_int_value(t):
+                return {}, Fraction(t.as_long())
+            if z3.is_const(t) and t.decl().kind() == z3.Z3_OP_UNINTERPRETED:
+                nm = t.decl().name()
+                if '#' in nm or '!' in nm:
+                    raise ValueError
+                return {nm: Fraction(1)}, Fraction(0)
+            if z3.is_add(t) or z3.is_sub(t):
+                terms, const = {}, Fraction(0)
+                for i, c in enumerate(t.children()):
+                    tt, cc = rec(c)
+                    sg = -1 if (z3.is_sub(t) and i > 0) else 1
+                    const += sg * cc
+                    for k, v in tt.items():
+                        terms[k] = terms.get(k, 0) + sg * v
+                return terms, const
+            if z3.is_app_of(t, z3.Z3_OP_UMINUS):
+                tt, cc = rec(t.arg(0))
+                return {k: -v for k, v in tt.items()}, -cc
+            if z3.is_mul(t):
+                parts = [rec(c) for c in t.children()]
+                nonconst = [p_ for p_ in parts if p_[0]]
+                if len(nonconst) > 1:
+                    raise ValueError
+                k = Fraction(1)
+                for p_ in parts:
+                    if not p_[0]:
+                        k *= p_[1]
+                if not nonconst:
+                    return {}, k
+                return {n: v * k for n, v in nonconst[0][0].items()}, nonconst[0][1] * k
+            raise ValueError
+        try:
+            terms, const = rec(self.n)
+        except (ValueError, Exception):
+            return None
+        terms = {k: v for k, v in terms.items() if v != 0}
+        if raw:
+            return terms, const
+        return (terms, const) if len(terms) >= 2 or (terms and const != 0) else None
+
     def describe(self):
         if self.is_numeric():
             return ('num', str(self.n))
         if not self.d and z3.is_const(self.n) and self.n.decl().kind() == z3.Z3_OP_UNINTERPRETED:
             return ('var', self.n.decl().name())
+        lin = self._linear()
+        if lin is not None:
+            return ('lin', Sym.format_lin(*lin))
         # a product of symbols (possibly over symbols): it vanishes exactly where one of its numerator factors does
         try:
             coeff, atoms = self._as_atoms()
@@ -336,8 +408,29 @@ class Sym:
             return {'eq': a == b, 'ne': a != b, 'lt': a < b, 'le': a <= b, 'gt': a > b, 'ge': a >= b}[kind]
         if kind in ('eq', 'ne') and self.same(o):
             return kind == 'eq'
+        if kind in ('eq', 'ne') and Sym.ALIAS and not self.d and not o.d:
+            # on an equality locus an input may stand for a combination of others: a difference that cancels identically is an equality
+            try:
+                lf = (self - o)._linear(raw=True)
+            except Exception:
+                lf = None
+            if lf is not None and not lf[0]:
+                return (lf[1] == 0) == (kind == 'eq')
         if kind in ('eq', 'ne'):
             ev = (self.describe(), o.describe())
+            if ev[0] is None or ev[1] is None:
+                # a quotient / compound expression compared with something: the locus is where the numerator of the difference vanishes;
+                # when that numerator is linear in the inputs (xi = 2*x/a - 1 == -1  <=>  x == 0) it can be imposed like any other
+                try:
+                    lf = Sym((self - o).n)._linear(raw=True)
+                except Exception:
+                    lf = None
+                if lf is not None and lf[0]:
+                    if len(lf[0]) == 1:
+                        (nm, cf), = lf[0].items()
+                        ev = (('var', nm), ('num', str(-lf[1] / cf)))
+                    else:
+                        ev = (('lin', Sym.format_lin(*lf)), ('num', '0'))
             if not any(e[0] == ev[0] and e[1] == ev[1] for e in Sym.EQ_EVENTS) and len(Sym.EQ_EVENTS) < 200:
                 import traceback
                 fr = [f for f in traceback.extract_stack(limit=12) if '/compmech/' in f.filename]
